@@ -174,7 +174,8 @@ class LocationAction(object):
         # Have we fired too quickly?
         last_fire = self.__stats.last_fire
         if last_fire != 0:
-            time_since_last = ts - last_fire
+            # threads can overlap, so the last fire can be later than this hit - it is the distance that matters
+            time_since_last = abs(ts - last_fire)
             if time_since_last < self.__fire_period_ns():
                 return False
 
